@@ -189,6 +189,14 @@ def work(p):
         T = gt.ev(expr)
         pairs = rng.sample(allpairs, 3) if i % p.get("pair_every", 4) == 0 else []
         judge_type(res, T, expr, [], rws, pairs, rng)
+    real = [n for n in SINGLES if n != "NoOpRewriter"]
+    realpairs = [(a, b) for a in real for b in real if a != b]
+    for expr in p.get("hood", ()):
+        # around the triggers every ordered pair matters: what one rewriter produces can be the next one's trigger
+        T = gt.ev(expr)
+        small = typing.get_origin(T) is typing.Union and len(T.__args__) == 2  # below every union maximum: the declining paths
+        judge_type(res, T, expr, [], rws, realpairs if p.get("all_pairs") or small else rng.sample(realpairs, 10), rng)
+        res.count("trigger_neighbourhood_types_judged")
     for _ in range(p.get("random", 0)):
         expr = gt.gen_type(rng) if rng.random() < 0.5 else gt.gen_union(rng)
         judge_type(res, gt.ev(expr), expr, [], rws, rng.sample(allpairs, 3), rng)
@@ -209,7 +217,6 @@ def run(ck):
     exprs = list(gt.enumerate_upto(4 if quick else 5))
     hood = gt.neighbourhood_exprs(ck.rng("hood"), 150 if quick else 3000)
     ck.count("trigger_neighbourhood_types", len(hood))
-    exprs += hood
     rs = ck.rng("inferred")
     inferred = []
     ms = [list(m) for m in gv.multisets(2)]
@@ -220,7 +227,7 @@ def run(ck):
     nrandom = 30000 if quick else 200000
     n = core.NPROC * (2 if quick else 8)
     payloads = [
-        {"exprs": exprs[i::n], "inferred": inferred[i::n], "random": nrandom // n, "seed": f"C07:{ck.seed}:{i}", "pair_every": 4}
+        {"exprs": exprs[i::n], "hood": hood[i::n], "all_pairs": not quick, "inferred": inferred[i::n], "random": nrandom // n, "seed": f"C07:{ck.seed}:{i}", "pair_every": 4}
         for i in range(n)
     ]
     for r in core.pmap("vf.props.c07:work", payloads, timeout=3400):
